@@ -50,23 +50,17 @@ def appendTerms (L R : List (List Node)) : List (List Node) :=
 def mergeTerms (L R : List (List Node)) : List (List Node) :=
   R.foldl (fun res r => res.map (fun l => l ++ r)) L
 
-mutual
-def expandOr : Node → List (List Node)
-  | .or l r => expandTerm l ++ expandTerm r
-  | _ => []
-def expandAnd : Node → List (List Node)
+/-- `expandOrTerm` and `expandAndTerm` (after the repair they coincide): a leaf is one alternative with one
+    term; an OR concatenates the alternatives of its operands (`expandOr`); an AND combines them with
+    `appendTerms` when either side has more than one alternative and with `mergeTerms` otherwise (`expandAnd`). -/
+def expandTerm : Node → List (List Node)
+  | .lic id p e => [[.lic id p e]]
+  | .ref d i => [[.ref d i]]
   | .and l r =>
     let L := expandTerm l
     let R := expandTerm r
     if L.length > 1 ∨ R.length > 1 then appendTerms L R else mergeTerms L R
-  | _ => []
-/-- `expandOrTerm` and `expandAndTerm` (they coincide) -/
-def expandTerm : Node → List (List Node)
-  | .lic id p e => [[.lic id p e]]
-  | .ref d i => [[.ref d i]]
-  | .and l r => expandAnd (.and l r)
-  | .or l r => expandOr (.or l r)
-end
+  | .or l r => expandTerm l ++ expandTerm r
 
 /-- `expand(true)` -/
 def expand (n : Node) : List (List Node) :=
